@@ -3,6 +3,7 @@ package mon
 import (
 	"bytes"
 	"fmt"
+	"github.com/z7zmey/php-parser/pkg/ast"
 	"strings"
 
 	"verif/harness/core"
@@ -52,6 +53,41 @@ func fmtOnce(src []byte, ver string) fmtResult {
 	}
 	buf.Write(pv.Buf.Bytes())
 	return fmtResult{out: buf.Bytes()}
+}
+
+// One formatter object may format many trees, and a formatted tree may be printed later: the worker keeps a
+// long-lived formatter; every program that passed the single-source checks is formatted by it as well, and
+// printed only after the NEXT program has been formatted — the text must be what a new formatter produces.
+var c17Long struct {
+	f       ast.Visitor
+	pending ast.Vertex
+	want    []byte
+	src     []byte
+	ver     string
+}
+
+func c17LongLived(c *core.Ctx, src []byte, ver string, want []byte) {
+	pr := obs.Parse(append([]byte(nil), src...), ver, true)
+	if pr.Panic != nil || pr.Root == nil || len(pr.Errors) > 0 {
+		return
+	}
+	if c17Long.f == nil {
+		c17Long.f = formatter.NewFormatter()
+	}
+	if p := obs.Try(func() { pr.Root.Accept(c17Long.f) }); p != nil {
+		c17Long.f, c17Long.pending = nil, nil
+		c.Violation("format|long-lived-formatter|"+p.Sig, "a formatter that has formatted other trees before panicked on a program a new formatter formats: "+p.Msg, core.W(src, ver))
+		return
+	}
+	if c17Long.pending != nil {
+		pv, pp := printTree(c17Long.pending, nil)
+		c.Add("trees_printed_after_the_formatter_formatted_another_tree", 1)
+		if pp == nil && !bytes.Equal(pv.Buf.Bytes(), c17Long.want) {
+			c.Violation("format|long-lived-formatter|earlier-tree-differs", "a tree formatted by a long-lived formatter and printed after the same formatter had formatted the next tree differs from the text of a new formatter: "+obs.FirstDiff(string(c17Long.want), pv.Buf.String()), core.W(c17Long.src, c17Long.ver).With("next_program", obsQuote(src, 200)))
+			c17Long.f = nil
+		}
+	}
+	c17Long.pending, c17Long.want, c17Long.src, c17Long.ver = pr.Root, want, src, ver
 }
 
 // fmtCheck runs the single-source checks; class "" = all held.
@@ -219,6 +255,7 @@ func c17Case(c *core.Ctx, idx int) {
 	case "":
 		c.Add("programs_formatted_and_checked", 1)
 		c.NonTrivial(src, []byte(ver))
+		c17LongLived(c, src, ver, res.out)
 		if c.WantSample() && len(src) > 30 && len(src) < 200 {
 			c.Sample(map[string]interface{}{"source": string(src), "formatted": string(res.out), "version": ver, "checks": "reparse, same structure, idempotent, 4 whitespace layouts format identically"})
 		}
@@ -275,7 +312,7 @@ func c17Scaled(c *core.Ctx, idx int) {
 func init() {
 	core.Register(&core.Check{
 		ID:   "C17",
-		Rule: "cases = known-finding witnesses ++ generated PHP-mode programs (G1, 1-3 statements, depth 1-3, both families) in the canonical layout (format, print, reparse, structure equality, idempotence) and 4 further whitespace-only layouts (identical formatted text); a failing program is reduced on the abstract tree to its deepest failing stand-alone sub-construct; every 25th case is a scaled program (one construct repeated or nested 1..60 times, 65 shapes) through the single-source checks; non-trivial = program that passed through all checks; distinct by (source, version)",
+		Rule: "cases = known-finding witnesses ++ generated PHP-mode programs (G1, 1-3 statements, depth 1-3, both families) in the canonical layout (format, print, reparse, structure equality, idempotence) and 4 further whitespace-only layouts (identical formatted text); every passing program is also formatted by the worker's long-lived formatter and printed only after that formatter has formatted the next program (same text as a new formatter); a failing program is reduced on the abstract tree to its deepest failing stand-alone sub-construct; every 25th case is a scaled program (one construct repeated or nested 1..60 times, 65 shapes) through the single-source checks; non-trivial = program that passed through all checks; distinct by (source, version)",
 		Assumptions: []string{
 			"structure = kinds, roles, order and Value bytes",
 			"whitespace-only layouts vary blanks and line terminators between tokens (no comments, nothing after the last token)",
